@@ -585,10 +585,45 @@ func (p *Prog) returnedLits(v ssa.Value, ctx *Ctx, depth int) []litView {
 		}
 	case *ssa.Alloc:
 		return []litView{{x, ctx}}
+	case *ssa.Const:
+		if _, isStruct := x.Type().Underlying().(*types.Struct); isStruct && x.Value == nil {
+			return []litView{{nil, ctx}} // T{}: the zero literal
+		}
 	case *ssa.Phi:
 		var out []litView
 		for _, e := range x.Edges {
 			vs := p.returnedLits(e, ctx, depth)
+			if vs == nil {
+				return nil
+			}
+			out = append(out, vs...)
+		}
+		return out
+	case *ssa.Extract:
+		// one result of a helper with several: the literals of its non-error returns
+		call, ok := x.Tuple.(*ssa.Call)
+		if !ok {
+			return nil
+		}
+		callee := call.Common().StaticCallee()
+		if depth <= 0 || callee == nil || !p.InRepo(callee) || (ctx != nil && ctx.has(callee)) {
+			return nil
+		}
+		d := 0
+		if ctx != nil {
+			d = ctx.Depth + 1
+		}
+		cctx := &Ctx{Parent: ctx, Site: call, Fn: callee, Depth: d}
+		var out []litView
+		for _, b := range callee.Blocks {
+			ret, ok := b.Instrs[len(b.Instrs)-1].(*ssa.Return)
+			if !ok || x.Index >= len(ret.Results) {
+				continue
+			}
+			if n := len(ret.Results); n > 1 && classifyReturn(ret, n-1) == rcA {
+				continue
+			}
+			vs := p.returnedLits(spilledResult(ret, x.Index), cctx, depth-1)
 			if vs == nil {
 				return nil
 			}
@@ -623,6 +658,9 @@ func (p *Prog) returnedLits(v ssa.Value, ctx *Ctx, depth int) []litView {
 // Field: the values stored into the field path of the literal, as terms in the view's context.
 func (lv litView) Field(path string) []*Term {
 	var out []*Term
+	if lv.Al == nil {
+		return nil
+	}
 	for _, v := range litStores(lv.Al)[path] {
 		out = append(out, TermOf(v, lv.Ctx))
 	}
